@@ -228,7 +228,7 @@ BAD_RX = ["(unclosed", "[a-", "*x", "(?P<n>a)(?P<n>b)"]
 class C10(Prop):
     id = "C10"
     title = "Prompt-injection gates block every signature hit, stay blocked, and never crash"
-    extractors = ["E5-gates"]
+    extractors = ["E5-gates", "py2lean-gates"]
     fixed_prefix = 1
     quick_budget = 1300
     thorough_budget = 24000
@@ -326,8 +326,9 @@ class C10(Prop):
         from ..extract import e5_gates
         text = e5_gates.generate(REPO, self.MB, self.IN)
         changed = write_if_changed(LEAN / "Operon" / "Gen" / "GatesConsts.lean", text)
+        from ..extract import py2lean_gates
         return [{"id": "E5-gates", "facts_changed": bool(changed),
-                 "facts_unrecognised": text.count(":= none")}]
+                 "facts_unrecognised": text.count(":= none")}] + py2lean_gates.run(REPO, LEAN, write_if_changed)
 
     # ----------------------------------------------------------------------------------------------------------
     # helpers
